@@ -230,7 +230,7 @@ MANIFEST = {
     "text": "PROVED (Props/C02.lean): limit_pushdown_preserves — for a row pipeline described by the code's guard fields, guard = true implies that cutting the source to k rows before the tail "
             "equals cutting the tail's output (any deterministic scan order), and limit_pushdown_needs_guard gives a counterexample for every dropped conjunct that matters (DISTINCT, ORDER BY, "
             "aggregation, SKIP, filter); limit_guard_tie / plan_guard_tie : the guard's conjuncts are exactly the early-return conditions of limitPushdownTailSource / "
-            "queryPartAllowsLimitPushdown in the current sources (decide over the extracted table). prune_preserves — dropping columns the tail does not read does not change its output. "
+            "queryPartAllowsLimitPushdown in the current sources (decide over the extracted table). transparent_where_tie: the helper behind the guard's last conjunct (which tail WHERE a LIMIT may be moved below) is, statement by statement, the analysed one — transparent only if the WHERE is absent or consists of the endpoint inequality over a transparent shortest-path harness frame (limit_below_filter_loses_rows: cutting before a filter is not cutting after it). prune_preserves — dropping columns the tail does not read does not change its output. "
             "aggregate_helper_tie / depth_guard_tie / alias_declaration_tie: selectContainsAggregate (visitor over every node, never consumes), "
             "aggregateTraversalDepthBounds (lower bound >= 1) and isProjectionAliasDeclaration (node identity) are the analysed functions (decide over their extracted statements), with "
             "agg_count_depth_preserves (+ needs_guard witness for lower bound 0) and collect_id_lowering_blocked_by_reprojection (+ by-symbol counterexample) as the lemmas whose hypotheses "
@@ -253,7 +253,7 @@ MANIFEST = {
             "since without ORDER BY the LIMIT keeps whichever rows the scan of the chosen join order delivers first; (2) the optimised rows are runTail on the guard's shape over the frame CUT to k rows, the "
             "unoptimised rows are runTail over the whole frame, so limit_pushdown_preserves applies literally (limit_pushdown_on_hop); (3) when both variants pick the same join order the two row lists are "
             "EQUAL, in order. The per-run search compares such pairs the same way (equal length + sub-bag of the uncut statement's rows). On S1 (ORDER BY id(n) SKIP / LIMIT) no lowering fires and the statements "
-            "are identical (opt_equiv (3)). NOT PROVED: C02_full for the real translator (all "
+            "are identical (opt_equiv (3)). C01's later stages S1o (ORDER BY on a property), S1d (RETURN DISTINCT), S2x (a hop comparing a property of a with one of b), S3a / S3b (one WITH) are NOT part of opt_equiv: their optimised / unoptimised statements are compared by the search only. NOT PROVED: C02_full for the real translator (all "
             "queries); limit pushdown into the last frame of a chain; the other lowerings (late path materialisation, suffix / predicate placement, direction selection, expand-into, exact range, shortest-path strategies, aggregate traversal "
             "count) are covered by the search only. SEARCHED: every corpus / generated query both variants translate and Sql.eval models; the evidence lists which rules and lowerings fired.",
     "note": "Search compares two outputs of the real translator with each other, so it needs no Cypher semantics and is not affected by the C01 deviations (both variants share them). "
